@@ -65,7 +65,105 @@ type relSpec struct {
 	kind string
 }
 
+// releaseQuota: a registration that fails part-way gives back the per-client port quota it had reserved,
+// whatever made it fail (name taken, port busy, port not allowed, listen failure, route conflict is not a port user).
+func releaseQuota(w *World) {
+	token := "rel-token"
+	tcpMux := w.KnobBool("tcp_mux", 50)
+	quota := w.KnobPick("quota", 1, 2, 3)
+	scfg := map[string]any{
+		"bindAddr": "10.0.0.1", "bindPort": 7000,
+		"auth":              map[string]any{"token": token},
+		"transport":         map[string]any{"tcpMux": tcpMux, "heartbeatTimeout": -1},
+		"allowPorts":        []map[string]any{{"start": 20000, "end": 20009}},
+		"maxPortsPerClient": quota,
+		"userConnTimeout":   3,
+	}
+	env := w.newLcEnv(scfg, token, PeerOpts{Server: "10.0.0.1:7000", Mux: tcpMux, Token: token})
+	env.start()
+	r := w.R
+	viol := func(oracle, sig, f string, a ...any) { w.Violate("C10", oracle, sig, f, a...) }
+	other := env.newClient("other", 0)
+	other.login("")
+	if rr, got := other.register(M{"proxy_name": "taken", "proxy_type": "tcp", "remote_port": 20009}); !got || mstr(rr, "error") != "" {
+		w.Fail("other register: %v", rr)
+	}
+	c := env.newClient("q", 0)
+	c.login("")
+	syncCtl := func() {
+		from := len(c.Inbox)
+		c.Ping(true, token)
+		c.WaitMsg(10*time.Second, func(m RecvMsg) bool { return m.Seq >= from && m.Type == tPong })
+	}
+	var history []string
+	nfail := w.KnobPick("nfailures", 1, 3, 6)
+	for i := 0; i < nfail; i++ {
+		typ := []string{"tcp", "udp"}[r.Intn(2)]
+		f := M{"proxy_name": fmt.Sprintf("f%d", i), "proxy_type": typ, "remote_port": 20000 + r.Intn(4)}
+		kind := r.Intn(5)
+		switch kind {
+		case 0: // the name is live in another session
+			f["proxy_name"] = "taken"
+		case 1: // the port is owned by another session
+			f["proxy_type"], f["remote_port"] = "tcp", 20009
+		case 2: // the port is outside the allowed ranges
+			f["remote_port"] = 30000 + r.Intn(100)
+		case 3: // somebody outside frps holds the port
+			net := "tcp"
+			if typ == "udp" {
+				net = "udp"
+			}
+			w.Net.SquatPort(net, fmt.Sprintf("10.0.0.1:%d", f["remote_port"]), true)
+			defer w.Net.SquatPort(net, fmt.Sprintf("10.0.0.1:%d", f["remote_port"]), false)
+			f["remote_port"] = f["remote_port"].(int)
+		case 4: // the name is already live in this very session
+			if rr, got := c.register(M{"proxy_name": "mine", "proxy_type": "tcp", "remote_port": 20008}); got && mstr(rr, "error") == "" {
+				f["proxy_name"] = "mine"
+				rr, _ := c.register(f)
+				history = append(history, fmt.Sprintf("%s -> %s", jsonStr(f), jsonStr(rr)))
+				c.CloseProxy("mine")
+				syncCtl()
+				continue
+			}
+		}
+		rr, got := c.register(f)
+		history = append(history, fmt.Sprintf("%s -> %s", jsonStr(f), jsonStr(rr)))
+		if got && mstr(rr, "error") == "" {
+			// not a failure after all (e.g. the squatted port was probed differently): give it back properly
+			c.CloseProxy(mstr(f, "proxy_name"))
+			syncCtl()
+		}
+		if kind == 3 {
+			net := "tcp"
+			if typ == "udp" {
+				net = "udp"
+			}
+			w.Net.SquatPort(net, fmt.Sprintf("10.0.0.1:%d", f["remote_port"]), false)
+		}
+	}
+	// the whole quota must still be available
+	w.Check("C10.failed-registration-releases-quota")
+	for j := 0; j < quota; j++ {
+		f := M{"proxy_name": fmt.Sprintf("ok%d", j), "proxy_type": "tcp", "remote_port": 20004 + j}
+		rr, got := c.register(f)
+		if !got || mstr(rr, "error") != "" {
+			viol("partial", "quota-not-released-after-failed-registration", "maxPortsPerClient=%d: after %d failed registrations and no live proxy, registration %d of %d was refused: %v; failures: %v", quota, nfail, j+1, quota, rr, history)
+			return
+		}
+	}
+	// and not more than the quota
+	if rr, got := c.register(M{"proxy_name": "over", "proxy_type": "tcp", "remote_port": 20003}); got && mstr(rr, "error") == "" {
+		viol("partial", "quota-exceeded", "maxPortsPerClient=%d: a %dth port was granted", quota, quota+1)
+	}
+	w.SetSample(map[string]any{"scenario": "quota", "quota": quota, "failures": history})
+	w.Nontrivial()
+}
+
 func worldRelease(w *World) {
+	if w.KnobBool("quota_scenario", 15) {
+		releaseQuota(w)
+		return
+	}
 	token := "rel-token"
 	tcpMux := w.KnobBool("tcp_mux", 50)
 	hbTimeout := 0
@@ -158,11 +256,9 @@ func worldRelease(w *World) {
 		}
 		return ok
 	}
-	syncCtl := func(c *lcClient) {
-		from := len(c.Inbox)
-		c.Ping(true, token)
-		c.WaitMsg(10*time.Second, func(m RecvMsg) bool { return m.Seq >= from && m.Type == tPong })
-	}
+	// (a ping/pong pair is not a barrier here: the keep-alive pings of this world run in parallel, and the pong of
+	// an earlier one would end the wait before the messages in front of it have been processed)
+	syncCtl := func(c *lcClient) { c.syncStrong() }
 	keepAlive := func(c *lcClient, stop chan struct{}) {
 		// valid heartbeats so that only the intended silence trips the timeout
 		c.Node.Go(func() {
